@@ -1618,7 +1618,6 @@ package engine
 //@   pure
 //@   deterministic
 //@   modifies nothing
-//@   requires t != nil
 //@   loop 1 invariant 0 <= i && forall j int :: 0 <= j && j < i ==> !contains(Compound.Arg(t as Compound, j), s, env)
 //@   ensures[a-variable-occurs-in-itself] t is Variable && t == s ==> result
 //@   ensures[an-unbound-variable-contains-nothing-else] t is Variable && t != s && !bound(env, t as Variable) ==> !result
@@ -1627,3 +1626,38 @@ package engine
 //@   ensures[a-compound-contains-what-its-arguments-contain] t is Compound && !(s is Atom && Compound.Functor(t as Compound) == (s as Atom)) ==>
 //@       (result <==> exists j int :: 0 <= j && j < Compound.Arity(t as Compound) && contains(Compound.Arg(t as Compound, j), s, env))
 //@   ensures[atomic] !(t is Variable) && !(t is Compound) ==> result == (t == s)
+
+//@ func (*Env).bind
+//@   trusted
+//@   modifies nothing
+//@   ensures result != nil
+//@   ensures bound(result, v) && valueOf(result, v) == t
+//@   ensures forall w Variable :: w != v ==> bound(result, w) == bound(e, w) && valueOf(result, w) == valueOf(e, w)
+
+//@ func (*Env).unify
+//@   property C02
+//@   modifies nothing
+//@   let rx = resolve(e, x)
+//@   let ry = resolve(e, y)
+//@   bind senv, sok = (*Env).unify#1
+//@   bind tenv, tok = (*Env).unify#3
+//@   at-call (*Env).Resolve#1 requires[both-sides-are-dereferenced-first] a0 == e && a1 == x
+//@   at-call (*Env).Resolve#2 requires[both-sides-are-dereferenced-first] a0 == e && a1 == y
+//@   at-call (*Env).unify#1 requires[a-variable-on-the-right-is-treated-as-on-the-left] a0 == e && a1 == ry && a2 == rx && a3 == occursCheck
+//@   at-call (*Env).unify#2 requires[arguments-pairwise-left-to-right] a1 == Compound.Arg(rx as Compound, local(i, int)) && a2 == Compound.Arg(ry as Compound, local(i, int)) && a3 == occursCheck
+//@   at-call (*Env).unify#3 requires[a-variable-on-the-right-is-treated-as-on-the-left] a0 == e && a1 == ry && a2 == rx && a3 == occursCheck
+//@   loop 1 invariant 0 <= i && (i == 0 || i <= Compound.Arity(rx as Compound)) && (i == 0 ==> local(e, *Env) == e)
+//@   ensures[a-variable-unifies-with-itself] rx is Variable && rx == ry ==> result1 && result0 == e
+//@   ensures[occurs-check] rx is Variable && rx != ry && occursCheck && contains(ry, rx, e) ==> !result1 && result0 == e
+//@   ensures[binds-the-variable-to-the-other-side] rx is Variable && rx != ry && !(occursCheck && contains(ry, rx, e)) ==>
+//@       result1 && bound(result0, rx as Variable) && valueOf(result0, rx as Variable) == ry
+//@   ensures[binds-nothing-else] rx is Variable && rx != ry && !(occursCheck && contains(ry, rx, e)) ==>
+//@       forall w Variable :: w != (rx as Variable) ==> bound(result0, w) == bound(e, w) && valueOf(result0, w) == valueOf(e, w)
+//@   ensures[atomic-terms-unify-iff-identical] !(rx is Variable) && !(rx is Compound) && !(ry is Variable) ==> result1 == (rx == ry) && result0 == e
+//@   ensures[compound-against-atomic] rx is Compound && !(ry is Variable) && !(ry is Compound) ==> !result1 && result0 == e
+//@   ensures[different-principal-functor] rx is Compound && ry is Compound &&
+//@       (Compound.Functor(rx as Compound) != Compound.Functor(ry as Compound) || Compound.Arity(rx as Compound) != Compound.Arity(ry as Compound)) ==> !result1 && result0 == e
+//@   ensures[no-arguments] rx is Compound && ry is Compound && Compound.Functor(rx as Compound) == Compound.Functor(ry as Compound) &&
+//@       Compound.Arity(rx as Compound) == Compound.Arity(ry as Compound) && Compound.Arity(rx as Compound) <= 0 ==> result1 && result0 == e
+//@   ensures[symmetric-compound] rx is Compound && ry is Variable ==> result0 == senv && result1 == sok
+//@   ensures[symmetric-atomic] !(rx is Variable) && !(rx is Compound) && ry is Variable ==> result0 == tenv && result1 == tok
